@@ -641,3 +641,290 @@ def NC3(vc):
             vc.ensure('groups.every_version_scanned', Implies(inn, all_versions))
             vc.ensure('groups.only_requested_groups_scanned', Implies(Not(inn), len(mine) == 0))
     return ('groups', wanted, len(calls), type(raised).__name__)
+
+
+# ================================================================================================ NC4
+FINDING_POSTING_TIMEOUT = 'F-C12-4'   # time-outs / other connection errors of the POST escape post_event and kill the poster task
+K8S_MESSAGE_LIMIT = 1024              # k8s.io/api core/v1 Event validation: "message: can have at most 1024 characters"
+
+
+class _Text(SStr):
+    """
+    The event message abstracted to its STRUCTURE: a concatenation of literal pieces and of slices [lo, hi) of the
+    ORIGINAL message (whose length is one symbolic integer).  z3's string theory does not produce strings of > 1024
+    characters in useful time (needed to refute mutants); the verified code only takes len(), slices with constant
+    bounds and f-string concatenations of the message -- exactly what this class offers, with integer arithmetic only.
+    In the concrete re-run a real str of the model's length is used instead.
+    """
+    __slots__ = ('pieces',)
+
+    def __init__(self, pieces):
+        self.pieces = [p for p in pieces if not (p[0] == 'lit' and p[1] == '')]
+        n = self.vc_len()
+        SStr.__init__(self, n.term if isinstance(n, SNum) else z3.IntVal(n))
+
+    def vc_len(self):
+        total = 0
+        for p in self.pieces:
+            total = total + (len(p[1]) if p[0] == 'lit' else p[2] - p[1])
+        return total
+
+    def truth(self):
+        return self.vc_len() > 0
+
+    def __bool__(self):
+        return bool(self.vc_len() > 0)
+
+    def __getitem__(self, k):
+        if not isinstance(k, slice) or k.step not in (None, 1) or len(self.pieces) != 1 or self.pieces[0][0] != 'src':
+            raise Unsupported(f'_Text[{k!r}]')
+        _, lo0, hi0 = self.pieces[0]
+        n = hi0 - lo0
+
+        def idx(v, dflt):
+            if v is None:
+                return dflt
+            if not isinstance(v, int) or isinstance(v, SV):
+                raise Unsupported('a slice bound that is not a constant')
+            return If(n + v < 0, 0, n + v) if v < 0 else If(n < v, n, v)    # Python clamps; negative counts from the end
+        a, b = idx(k.start, 0), idx(k.stop, n)
+        b = If(b < a, a, b)
+        return _Text([('src', lo0 + a, lo0 + b)])
+
+    def _cat(self, o, rev):
+        if isinstance(o, _Text):
+            other = o.pieces
+        elif isinstance(o, str) and not isinstance(o, SV):
+            other = [('lit', o)]
+        else:
+            return NotImplemented
+        return _Text(other + self.pieces if rev else self.pieces + other)
+
+    def __add__(self, o):
+        return self._cat(o, False)
+
+    def __radd__(self, o):
+        return self._cat(o, True)
+
+    def __eq__(self, o):
+        if o is self:
+            return True
+        raise Unsupported('comparison of the abstracted message text')
+
+    __hash__ = SStr.__hash__
+
+    def __format__(self, spec):
+        return '<message text>'
+
+
+def _pattern(n):
+    return ''.join(chr(ord('a') + (i * 7 + i // 26) % 26) for i in range(n))
+
+
+def spec_message_cut(vc, sent, message, n):
+    """`sent` is `message` (of n characters) as the Kubernetes limit allows it: itself if it fits; otherwise its beginning
+    and its end (both non-empty) around some marker, nothing else of it, within the limit."""
+    if vc.concrete:
+        if not isinstance(sent, str):
+            return False
+        if n <= K8S_MESSAGE_LIMIT:
+            return sent == message
+        p = 0
+        while p < len(sent) and sent[p] == message[p]:
+            p += 1
+        s = 0
+        while s < len(sent) - p and sent[-1 - s] == message[-1 - s]:
+            s += 1
+        return len(sent) <= K8S_MESSAGE_LIMIT and p >= 1 and s >= 1
+    if sent is message:
+        return n <= K8S_MESSAGE_LIMIT
+    if not isinstance(sent, _Text) or len(sent.pieces) < 2:
+        return False
+    first, last, middle = sent.pieces[0], sent.pieces[-1], sent.pieces[1:-1]
+    if first[0] != 'src' or last[0] != 'src' or any(p[0] != 'lit' for p in middle):
+        return False
+    return And(n > K8S_MESSAGE_LIMIT, sent.vc_len() <= K8S_MESSAGE_LIMIT,
+               Eq(first[1], 0), first[2] > 0, Eq(last[2], n), last[1] < n, first[2] <= last[1])
+
+
+def _nonempty(x):
+    return False if x is None else Not(Eq(x, ''))
+
+
+_POST_CONTAINED = (errors.APIError, aiohttp.ClientConnectionError, aiohttp.ClientResponseError, asyncio.TimeoutError)
+
+
+def _post_failure_reps():
+    named = [errors.APIError, aiohttp.ClientResponseError, aiohttp.ServerDisconnectedError, aiohttp.ClientOSError,
+             aiohttp.ClientConnectionError, asyncio.TimeoutError]
+    reps = exception_reps(named, with_base=True) + [aiohttp.ServerTimeoutError, aiohttp.ClientPayloadError, asyncio.CancelledError]
+    if hasattr(aiohttp, 'ClientConnectionResetError'):
+        reps.append(aiohttp.ClientConnectionResetError)
+    out = []
+    for cls in reps:
+        try:
+            _mk(cls)
+        except Exception:
+            continue
+        out.append(cls)
+    return out
+
+
+@harness('NC4', targets='kopf._cogs.clients.events.post_event', props=['C12'],
+         clauses=['no_events_for_events', 'one_post_to_the_events_of_the_namespace', 'namespace_fallback', 'involved_object_is_the_ref',
+                  'event_fields', 'message_within_the_limit', 'infrastructure_failures_contained', 'contained_with_a_log_line',
+                  'other_failures_propagate', 'ref_not_modified'],
+         canaries=['canary.always_posts', 'canary.never_cut', 'canary.never_raises', 'canary.never_logs', 'canary.namespace_always_default'],
+         trusted=['api.post by contract N5 (one request through api.request, N2: the retried kinds escalate as themselves once the '
+                  'backoffs are exhausted)', 'api.get_default_namespace by contract NC6', 'Resource.get_url by contract O11',
+                  'datetime.datetime.now / isoformat / fromisoformat (real library code, run natively)', 'copy.copy of a dict',
+                  'the message text is abstracted to its structure (_Text): len, constant slices, concatenation'])
+def NC4(vc):
+    """
+    events.post_event(ref, type, reason, message, resource, settings, logger): post ONE k8s-event about the object `ref`.
+    What is sent (scenario "sent": every shape of the ref -- apiVersion/kind/namespace present or not, arbitrary strings incl.
+    empty --, every default namespace of the credentials -- None, empty, some --, messages of EVERY length, omitted incl.):
+      * nothing at all for a ref to a core v1 Event (docs/events.rst "Events for events": silently skipped);
+      * otherwise exactly one api.post, to resource.get_url(namespace=N) and with metadata.namespace = N and
+        involvedObject.namespace = N, where N = the ref's namespace if it has a non-empty one, else the default namespace
+        of the current credentials if there is a non-empty one, else "default" (cluster-scoped objects; issue #164);
+      * involvedObject = the ref (every field, unchanged) + that namespace; the caller's ref object is not modified;
+      * type / reason as given; reportingComponent, source.component / reportingInstance / metadata.generateName from
+        settings.posting; three equal, timezone-aware ISO timestamps; JSON content type; the caller's settings and logger;
+      * message: unchanged if it has at most 1024 characters (the API's limit); otherwise cut to at most 1024: a non-empty
+        beginning and a non-empty end of the message around a marker, nothing else.
+    Which failures are contained (scenario "failures": every representative exception of api.post): C12 -- "events are
+    helpful but auxiliary": an infrastructure failure of the POST (APIError of any status, aiohttp.ClientConnectionError,
+    aiohttp.ClientResponseError, asyncio.TimeoutError -- the kinds api.request retries and then escalates, N2, and the 4xx
+    it escalates at once) never leaves post_event: it returns normally and leaves one log line of level warning or
+    higher; a cancellation, a non-Exception and an unrelated exception propagate unchanged (other aiohttp.ClientError
+    kinds: either).
+    KNOWN FINDING F-C12-4: asyncio.TimeoutError (incl. aiohttp.ServerTimeoutError) and the aiohttp.ClientConnectionError
+    kinds that are neither ClientOSError nor ServerDisconnectedError (the base class, ClientConnectionResetError,
+    ServerConnectionError) are NOT contained: they kill the root task "poster of events" and with it the operator.
+    """
+    scenario = ['sent', 'failures'][vc.nondet(2, 'scenario: what is sent / which failures are contained')]
+    logger = _RecLogger(vc)
+    posting = Opaque('posting', event_name_prefix=Opaque('prefix'), reporting_component=Opaque('component'),
+                     reporting_instance=Opaque('instance'))
+    settings = Opaque('settings', posting=posting)
+    etype, reason, url = Opaque('type'), Opaque('reason'), Opaque('url')
+    resource = Opaque('resource')
+    resource.get_url = lambda *a, **kw: (vc.emit('get_url', a, kw), url)[1]
+    UNASKED = Opaque('default namespace not asked for')
+    st = dict(thrown=None, default=UNASKED)
+
+    # ---- the inputs
+    ref = {'name': Opaque('name'), 'uid': Opaque('uid')}
+    if scenario == 'sent':
+        if vc.nondet(2, 'ref.apiVersion: absent / present') == 1:
+            ref['apiVersion'] = vc.str('ref.apiVersion')
+        if vc.nondet(2, 'ref.kind: absent / present') == 1:
+            ref['kind'] = vc.str('ref.kind')
+        if vc.nondet(2, 'ref.namespace: absent / present') == 1:
+            ref['namespace'] = vc.str('ref.namespace')
+        mk = vc.nondet(2, 'message: omitted / given')
+        n = vc.int('len(message)') if mk == 1 else 0
+        if mk == 1:
+            vc.assume(n >= 0, 'a length')
+        message = '' if mk == 0 else (_pattern(n) if vc.concrete else _Text([('src', 0, n)]))
+        reps = [errors.APIError]
+    else:
+        ref.update(apiVersion='kopf.dev/v1', kind='KopfExample', namespace='ns1')
+        mk, n, message = 1, 5, 'hello'
+        reps = _post_failure_reps()
+    ref0 = dict(ref)
+
+    async def get_default_namespace():
+        vc.emit('get_default_namespace')
+        await suspend('get_default_namespace')
+        st['default'] = vc.opt('default_namespace', vc.str)
+        return st['default']
+
+    async def post(*args, **kw):
+        vc.emit('post', args, kw)
+        await suspend('api.post')
+        k = vc.nondet(1 + len(reps), 'api.post: created / raises')
+        if k > 0:
+            st['thrown'] = _mk(reps[k - 1], status=[503, 422][vc.nondet(2, 'status')] if scenario == 'sent' else 500)
+            raise st['thrown']
+        return Opaque('created-event')
+    vc.used('api.post', 'N5'); vc.used('api.get_default_namespace', 'NC6'); vc.used('references.Resource.get_url', 'O11')
+    ld = vc.load('kopf._cogs.clients.events', 'post_event', stubs={'api.post': post, 'api.get_default_namespace': get_default_namespace})
+    kw = dict(ref=ref, type=etype, reason=reason, resource=resource, settings=settings, logger=logger)
+    if mk == 1:
+        kw['message'] = message
+    result = raised = None
+    try:
+        result = vc.drive(ld.fn(**kw))
+    except BaseException as e:
+        if _ours(e):
+            raise
+        raised = e
+    posts = [ev for ev in vc.trace if ev[0] == 'post']
+    logs = [ev for ev in vc.trace if ev[0] == 'log' and ev[1] in ('warning', 'error', 'exception', 'critical')]
+    vc.ensure('ref_not_modified', set(ref) == set(ref0) and all(ref[k] is ref0[k] for k in ref0))
+    vc.canary('canary.never_raises', raised is None)
+    vc.canary('canary.never_logs', not logs)
+
+    # ---- the failures of the POST
+    thrown = st['thrown']
+    if thrown is not None:
+        if isinstance(thrown, _POST_CONTAINED):
+            escapes = not isinstance(thrown, (errors.APIError, aiohttp.ClientResponseError, aiohttp.ServerDisconnectedError, aiohttp.ClientOSError))
+            vc.ensure('infrastructure_failures_contained', raised is None and result is None, excuse={FINDING_POSTING_TIMEOUT: escapes})
+            if raised is None:
+                vc.ensure('contained_with_a_log_line', len(logs) >= 1)
+        elif not isinstance(thrown, Exception) or type(thrown).__name__ == 'UnrelatedError':
+            vc.ensure('other_failures_propagate', raised is thrown)
+        else:
+            vc.ensure('other_failures_propagate', raised is thrown or (raised is None and len(logs) >= 1))
+        if scenario == 'failures':
+            return ('post-failed', type(thrown).__name__, type(raised).__name__)
+    elif scenario == 'failures':
+        vc.ensure('other_failures_propagate', raised is None and result is None and not logs)
+        return ('posted',)
+    else:
+        vc.ensure('other_failures_propagate', raised is None and result is None)
+    if raised is not None:
+        return ('raised', type(raised).__name__)
+
+    # ---- what is sent
+    for_event = And(Eq(ref['apiVersion'], 'v1') if 'apiVersion' in ref else False, Eq(ref['kind'], 'Event') if 'kind' in ref else False)
+    vc.canary('canary.always_posts', len(posts) == 1)
+    vc.ensure('no_events_for_events', Iff(for_event, len(posts) == 0))
+    vc.ensure('one_post_to_the_events_of_the_namespace', len(posts) <= 1)
+    if len(posts) != 1:
+        return ('skipped', len(posts))
+    got = dict(zip(['url'], posts[0][1]), **posts[0][2])
+    body = got.get('payload')
+    urls = [ev for ev in vc.trace if ev[0] == 'get_url']
+    default = None if st['default'] is UNASKED else st['default']
+    own = ref.get('namespace')
+    want_ns = If(_nonempty(own), own, If(_nonempty(default), default, 'default')) if own is not None else \
+        (If(_nonempty(default), default, 'default') if default is not None else 'default')
+    vc.ensure('one_post_to_the_events_of_the_namespace', len(urls) == 1 and urls[0][1] == () and set(urls[0][2]) == {'namespace'}
+              and got.get('url') is url and got.get('settings') is settings and got.get('logger') is logger
+              and got.get('headers') == {'Content-Type': 'application/json'}
+              and set(got) == {'url', 'settings', 'logger', 'headers', 'payload'} and isinstance(body, dict))
+    if len(urls) != 1 or not isinstance(body, dict) or not isinstance(body.get('metadata'), dict) or not isinstance(body.get('involvedObject'), dict):
+        return ('malformed',)
+    vc.ensure('namespace_fallback', Eq(urls[0][2].get('namespace'), want_ns))
+    vc.ensure('namespace_fallback', Eq(body['metadata'].get('namespace'), want_ns))
+    vc.ensure('namespace_fallback', Eq(body['involvedObject'].get('namespace'), want_ns))
+    vc.canary('canary.namespace_always_default', Eq(body['metadata'].get('namespace'), 'default'))
+    inv = body['involvedObject']
+    vc.ensure('involved_object_is_the_ref', inv is not ref and set(inv) == set(ref0) | {'namespace'}
+              and all(inv[k] is ref0[k] for k in ref0 if k != 'namespace'))
+    vc.ensure('event_fields', body.get('type') is etype and body.get('reason') is reason
+              and body['metadata'].get('generateName') is posting.event_name_prefix
+              and body.get('reportingComponent') is posting.reporting_component
+              and body.get('reportingInstance') is posting.reporting_instance
+              and isinstance(body.get('source'), dict) and body['source'].get('component') is posting.reporting_component)
+    stamps = [body.get(k) for k in ('firstTimestamp', 'lastTimestamp', 'eventTime')]
+    vc.ensure('event_fields', all(isinstance(s, str) and s == stamps[0] for s in stamps)
+              and datetime.datetime.fromisoformat(stamps[0]).utcoffset() == datetime.timedelta(0))
+    sent = body.get('message')
+    vc.ensure('message_within_the_limit', spec_message_cut(vc, sent, message, n))
+    vc.canary('canary.never_cut', sent is message)
+    return ('sent', mk, type(thrown).__name__)
